@@ -450,6 +450,19 @@ var extras = []string{
 	"a:b", "a:b:c", "a:", ":", "#'a:b", "#'", "#' a", "#^ a", "'", "' ", "(", ")", "(]", "[)", "\"", "\"\"\"", "#", "#q", "1.", "1e", "#x", "#xG", "#o8", "\xff", "a\xff",
 }
 
+// literals x literalContexts: every literal spelling of the table in every
+// context.  All configurations, both entry points.
+var literals = []string{
+	"0", "00", "007", "-0", "-1", "+1", "1+", "9223372036854775807", "-9223372036854775808", "9223372036854775808",
+	"1e5", "1E5", "1e+5", "1e-5", "1.5e-2", "0.0", "-0.0", "1.0e0", "2.0", "2.50", "1e400", "1.", "1e", ".5", "1.5.2",
+	"#x0", "#xff", "#XFF", "#xfF", "#x7fffffffffffffff", "#xffffffffffffffff", "#o17", "#O17", "#o8", "#xg", "-#x1",
+	`""`, `"a"`, `"\n"`, `"\\"`, `"\""`, `"a\\"`, `"\x41"`, `"\u00e9"`, `"é"`, `"\t;not a comment"`, `"(]"`, `"\q"`, "\"a\nb\"",
+	`""""""`, `"""a"""`, `"""a"b"""`, `"""a""b"""`, `""";c"""`, `"""\n"""`, "\"\"\"a\nb\"\"\"", "\"\"\"\n\"\"\"", `"""(]"""`,
+	"a", "a-b", "a.b", "<=", "%", "&rest", "+", "-", "--", "-a", "...", "a1", "é", "λx", "a:b", ":k", ":1", ":", "a:", "a:b:c", "a:1", "true", "()",
+}
+
+var literalContexts = []string{"%s", "%s\n", "(%s)", "(a %s)", "(%s a)", "'%s", "[%s %s]", "(a ; c\n %s)", "(a\n  %s ; c\n  )", "(a\n\n\n%s)", ";; c\n%s ; d", "#^%s", "'(%s)", "(a (%s) [%s])"}
+
 // ---------------------------------------------------------------------------
 
 func run(r *core.Run) {
@@ -536,9 +549,16 @@ func run(r *core.Run) {
 		perSpace[s.Name] = map[string]any{"texts": t1 - t0, "accepted": a1 - a0, "wall_s": time.Since(start).Seconds(), "cpu_s": cpuSeconds() - cpu0}
 	}
 	r.Extra("per_space", perSpace)
-	// extras
+	// extras and the literal table
 	ws := workers[0]
-	for _, t := range extras {
+	table := append([]string{}, extras...)
+	for _, l := range literals {
+		for _, c := range literalContexts {
+			table = append(table, strings.ReplaceAll(c, "%s", l))
+		}
+	}
+	r.Bound("literal_table", fmt.Sprintf("%d spellings x %d contexts", len(literals), len(literalContexts)))
+	for _, t := range table {
 		fs, st := checkText(t, all, true)
 		ws.texts++
 		ws.formats += int64(st.formats)
@@ -551,7 +571,7 @@ func run(r *core.Run) {
 		ws.outcomes["extra:"+st.outcome]++
 		for _, f := range fs {
 			ws.classes[f.Cfg+"/"+f.Class]++
-			e.report("extras", t, f)
+			e.report("tables", t, f)
 		}
 	}
 
